@@ -515,3 +515,139 @@ package crypto
 //@ loop 1 invariant [pristine] i == 0 ==> nothingAssigned()
 //@ loop 1 invariant [core] jfCore(s) && jfLock(s)
 //@ loop 1 invariant [accepting] i > 0 ==> 0 <= orig && orig < s.size
+
+// =============================================================================================
+// C glue, serialization layer (property C05). Field elements are integers (the raw limbs); BLST's
+// Montgomery-form primitives are uninterpreted functions (fpToMont, fpMulM, ...). `nobody` contracts are
+// the assumed contracts of one-line wrappers around BLST primitives (trusted leaves, DESIGN §3).
+
+//@ cfunc limbs_from_be_bytes nobody params ret in n
+//@ requires ret != nil && valid(in, n)
+//@ assigns ret[0:1]
+//@ ensures n == 48 ==> ret[0] == be48(in[0:48])
+//@ ensures n == 32 ==> ret[0] == be32(in[0:32])
+
+//@ cfunc be_bytes_from_limbs nobody params out in n
+//@ requires in != nil && valid(out, n)
+//@ assigns out[0:n]
+//@ ensures n == 48 ==> be48(out[0:48]) == in[0]
+//@ ensures n == 32 ==> be32(out[0:32]) == in[0]
+
+//@ cfunc Fp_check nobody pure
+//@ requires a != nil
+//@ assigns nothing
+//@ ensures result == (*a < FpP())
+
+//@ cfunc Fp_copy nobody
+//@ requires res != nil && a != nil
+//@ assigns *res
+//@ ensures *res == old(*a)
+
+//@ cfunc vec_zero nobody params ret num
+//@ requires valid(ret, num)
+//@ assigns ret[0:num]
+//@ ensures forall(k, 0, num, ret[k] == 0)
+
+//@ cfunc vec_is_zero nobody pure params a num
+//@ requires valid(a, num)
+//@ assigns nothing
+//@ ensures result == forall(k, 0, num, a[k] == 0)
+
+//@ cfunc Fp_set_zero nobody
+//@ requires a != nil
+//@ assigns *a
+//@ ensures *a == 0
+
+//@ cfunc Fp_to_montg nobody
+//@ requires res != nil && a != nil
+//@ assigns *res
+//@ ensures *res == fpToMont(old(*a))
+
+//@ cfunc Fp_from_montg nobody
+//@ requires res != nil && a != nil
+//@ assigns *res
+//@ ensures *res == fpFromMont(old(*a))
+
+//@ cfunc Fp_squ_montg nobody
+//@ requires res != nil && a != nil
+//@ assigns *res
+//@ ensures *res == fpSquM(old(*a))
+
+//@ cfunc Fp_mul_montg nobody
+//@ requires res != nil && a != nil && b != nil
+//@ assigns *res
+//@ ensures *res == fpMulM(old(*a), old(*b))
+
+//@ cfunc Fp_add nobody
+//@ requires res != nil && a != nil && b != nil
+//@ assigns *res
+//@ ensures *res == fpAddM(old(*a), old(*b))
+
+//@ cfunc Fp_neg nobody
+//@ requires res != nil && a != nil
+//@ assigns *res
+//@ ensures *res == fpNegM(old(*a))
+
+//@ cfunc Fp_sqrt_montg nobody
+//@ requires res != nil && a != nil
+//@ assigns *res
+//@ ensures result == fpSqrtOk(old(*a)) && (result ==> *res == fpSqrtM(old(*a)))
+
+//@ cfunc Fp_get_sign nobody pure
+//@ requires y != nil
+//@ assigns nothing
+//@ ensures result == fpSgn(*y)
+
+//@ cfunc E1_affine_on_curve nobody pure
+//@ requires p != nil
+//@ assigns nothing
+
+//@ cfunc Fp_read_bytes props C05 C09
+//@ requires out != nil
+//@ requires in_len == 48 ==> valid(in, 48)
+//@ assigns *out
+//@ ensures [length] in_len != 48 ==> result == BAD_ENCODING
+//@ ensures [range] in_len == 48 ==> (result == VALID) == (be48(in[0:48]) < FpP()) && (result == VALID || result == BAD_VALUE)
+//@ ensures [value] result == VALID ==> *out == be48(in[0:48])
+
+//@ cfunc Fp_write_bytes props C05 C09
+//@ requires a != nil && valid(out, 48)
+//@ assigns out[0:48]
+//@ ensures be48(out[0:48]) == *a
+
+// ZCash compressed G1 format (IETF pairing-friendly-curves draft, appendix C): byte 0 carries the
+// C (compression), I (infinity) and S (sign) flags in its three top bits.
+//@ pred g1flagC(b) = b[0] / 128 == 1
+//@ pred g1flagI(b) = (b[0] / 64) % 2 == 1
+//@ pred g1flagS(b) = (b[0] / 32) % 2 == 1
+// big-endian value of the 48 bytes with the three flag bits cleared
+//@ pred g1infEnc(b) = b[0] == 192 && forall(k, 1, 48, b[k] == 0)
+
+//@ cfunc E1_set_infty props C05
+//@ requires p != nil
+//@ assigns p.z
+//@ ensures p.z == 0
+
+//@ cfunc E1_is_infty props C05
+//@ requires p != nil
+//@ assigns nothing
+//@ ensures result == (p.z == 0)
+
+// g1x(b): the x coordinate encoded in the 48 bytes b (flag bits cleared)
+//@ pred g1x(b) = be48(b[0:48]) - (b[0]/32)*4925250774549309901534880012517951725634967408808180833493536675530715221437151326426783281860614455100828498788352
+//@ pred g1rhs(x) = fpAddM(fpMulM(fpSquM(x), x), cglobal(B_E1))
+
+//@ cfunc E1_read_bytes props C05 C09
+//@ requires a != nil
+//@ requires in_len == 48 ==> valid(in, 48)
+//@ assigns *a
+//@ ensures [length] in_len != 48 ==> result == BAD_ENCODING
+//@ ensures [compression-bit] old(in_len == 48 && !g1flagC(in)) ==> result == BAD_ENCODING
+//@ ensures [infinity-canonical] old(in_len == 48 && g1flagC(in) && g1flagI(in)) ==> (result == VALID) == old(g1infEnc(in)) && (result == VALID || result == BAD_ENCODING)
+//@ ensures [infinity-value] old(in_len == 48 && g1flagI(in)) && result == VALID ==> a.z == 0
+//@ ensures [x-range] old(in_len == 48 && g1flagC(in) && !g1flagI(in) && g1x(in) >= FpP()) ==> result == BAD_VALUE
+//@ ensures [x-in-range-not-bad-value] old(in_len == 48 && g1flagC(in) && !g1flagI(in) && g1x(in) < FpP()) ==> result != BAD_VALUE && result != BAD_ENCODING
+//@ ensures [on-curve] old(in_len == 48 && g1flagC(in) && !g1flagI(in) && g1x(in) < FpP()) ==> (result == VALID) == old(fpSqrtOk(g1rhs(fpToMont(g1x(in))))) && (result == VALID || result == POINT_NOT_ON_CURVE)
+//@ ensures [value-x] old(in_len == 48 && !g1flagI(in)) && result == VALID ==> a.x == old(fpToMont(g1x(in))) && a.z == cglobal(BLS12_381_pR)
+//@ ensures [value-y] old(in_len == 48 && !g1flagI(in)) && result == VALID ==> (fpSgn(fpSqrtM(g1rhs(a.x))) == old((in[0]/32)%2) ==> a.y == fpSqrtM(g1rhs(a.x))) && (fpSgn(fpSqrtM(g1rhs(a.x))) != old((in[0]/32)%2) ==> a.y == fpNegM(fpSqrtM(g1rhs(a.x))))
+//@ loop 1 invariant 1 <= i && i <= 48 && forall(k, 1, i, in[k] == 0)
